@@ -7,7 +7,8 @@ from props.hist import PLATFORMS
 RULE = ("scripted Read implementations replayed into the real update_reader: sequences of Ok(k) with 0<k<=buffer, "
         "Err(Interrupted), Err(other kinds) and Ok(0) in any order (short reads of every size class, Interrupted "
         "between data, hard errors at every position, early Ok(0)); state compared by continuation (count, finalize, "
-        "further update). Real files of lengths around the 16 KiB threshold, /proc, /dev/null, a directory and a "
+        "further update). Real files of lengths around the 16 KiB threshold, /proc, /dev/null, a sysfs file that seeks but cannot be "
+        "mapped, a 256 MiB file whose mapping fails under RLIMIT_AS (fallback must read the whole file), a directory and a "
         "missing path through update_reader / update_mmap / update_mmap_rayon (harness `file` cases). Non-trivial = "
         "distinct script containing an Interrupted or a hard error or a short read.")
 MODELLED = ["the reader is an oracle (script); kernel/filesystem/mmap behaviour are oracle assumptions",
@@ -78,7 +79,39 @@ def file_cases(ctx, harness):
             f.write(bytes((i % 251) for i in range(n)))
         lines.append(f"file paint/0/{n} {p}")
     lines += ["file - /proc/self/status", "file hex/ /dev/null", f"file ! {d}", f"file ! {d}/missing"]
+    # seekable, >= 16 KiB, but mmap() itself fails (sysfs binary attribute): the fallback must re-read from offset 0
+    for p in ("/sys/kernel/btf/vmlinux",):
+        try:
+            if os.path.getsize(p) >= 16384:
+                lines.append(f"file - {p}")
+        except OSError:
+            pass
     return number(lines, "f")
+
+
+def nomap_case(ctx, harness):
+    """a regular file whose mapping fails because of the address-space limit of the process (RLIMIT_AS):
+    update_mmap / update_mmap_rayon must fall back to reading the WHOLE file, i.e. agree with update_reader.
+    256 MiB sparse file of zeros, harness run under `ulimit -v` 200 MB with 2 rayon threads."""
+    d = os.path.join("/verif", "build", "c11files")
+    p = os.path.join(d, "sparse256m")
+    if not os.path.exists(p) or os.path.getsize(p) != (256 << 20):
+        with open(p, "wb") as f:
+            f.truncate(256 << 20)
+    line = f"n0 file - {p}"
+    cmd = "ulimit -v 200000; RAYON_NUM_THREADS=2 exec %s" % harness
+    try:
+        r = subprocess.run(["bash", "-c", cmd], input=line + "\n", stdout=subprocess.PIPE, stderr=subprocess.PIPE, text=True,
+                           timeout=600)
+        out = [l for l in r.stdout.split("\n") if l.startswith("n0 ")]
+        got = out[0][3:] if out else "CRASH rc=%s %s" % (r.returncode, r.stderr.strip()[-200:])
+    except subprocess.TimeoutExpired:
+        got = "TIMEOUT"
+    # control: the same file without the limit maps fine and must give the same digest
+    r2 = subprocess.run([harness], input=line + "\n", stdout=subprocess.PIPE, stderr=subprocess.PIPE, text=True, timeout=600)
+    out2 = [l for l in r2.stdout.split("\n") if l.startswith("n0 ")]
+    got2 = out2[0][3:] if out2 else "CRASH rc=%s" % r2.returncode
+    return line[3:], got, got2
 
 
 def correspondence(ctx):
@@ -115,7 +148,17 @@ def correspondence(ctx):
                     nfail += 1
                     ctx.failures.append({"correspondence": "files", "case": l, "model": mres.get(cid, ""), "impl": got,
                                          "build": f"{flavour}/{profile}"})
-            ctx.stats[f"files/{flavour}/{profile}"] = {"cases": len(fl), "disagreements": nfail}
+            case, got, got2 = nomap_case(ctx, b)
+            t, t2 = got.split(), got2.split()
+            ctx.evaluations += 2
+            okn = len(t) == 3 and t[0] == t[1] == t[2] and not t[0].startswith("ERR") and t2 == t
+            if not okn:
+                nfail += 1
+                ctx.failures.append({"correspondence": "files (mapping fails under RLIMIT_AS)", "case": case,
+                                     "model": "update_reader = update_mmap = update_mmap_rayon, same as without the limit: " + got2,
+                                     "impl": got, "build": f"{flavour}/{profile}"})
+            ctx.nontrivial.add(case + " rlimit")
+            ctx.stats[f"files/{flavour}/{profile}"] = {"cases": len(fl) + 2, "disagreements": nfail}
             ctx.log(f"correspondence files [{flavour}/{profile}]: {len(fl)} cases, {nfail} disagreements")
 
 
